@@ -255,7 +255,7 @@ def gen_invalid(ctx, rng):
     sp = dict(max_errors=0.1, min_overlap=3, read_wildcards=False, adapter_wildcards=True, indels=True)
     typ = rng.choice(["front", "back", "anywhere"])
     how = rng.choice(["o-anchored", "o-anchored-linked", "rightmost-wrong", "required-single", "b-restricted", "b-linked",
-                      "indels-both", "twice", "required-both", "two-restrictions"])
+                      "indels-both", "twice", "required-both", "two-restrictions", "o-zero"])
     join = lambda d: d["text"] + (";" + ";".join(d["ptxt"]) if d["ptxt"] else "")
 
     def anchored(t):
@@ -298,6 +298,14 @@ def gen_invalid(ctx, rng):
     elif how == "b-linked":
         typ = "anywhere"
         spec = join(gen_single(rng, "front", allow_restr=False, allow_flags=False)) + "..." + join(gen_single(rng, "back", allow_restr=False, allow_flags=False))
+    elif how == "o-zero":
+        # the overlap must be at least 1 (-O says so); for one adapter it is given as o=/min_overlap=
+        while True:
+            d = gen_single(rng, typ, allow_flags=False)
+            if d["restr"] != "anchored":
+                break
+        d["ptxt"] = [p for p in d["ptxt"] if not (p.strip().startswith("o=") or p.strip().startswith("min_overlap"))] + [rng.choice(["o=0", "min_overlap=0", "o=-1"])]
+        spec = join(d)
     elif how == "indels-both":
         d = gen_single(rng, typ, allow_flags=False)
         d["ptxt"] = [p for p in d["ptxt"] if "indels" not in p] + ["indels", "noindels"]
